@@ -166,8 +166,10 @@ def epilogues(repo, rep):
         ctor = [n for n in ast.walk(fi.node) if isinstance(n, ast.Call) and call_name(n) == "Coordinates"]
         if len(ctor) != 1:
             raise AnalysisError(f"{name}: Coordinates(...) construction not found")
-        kws = {k.arg: unparse(k.value) for k in ctor[0].keywords}
-        pos = [unparse(a) for a in ctor[0].args]
+        from ..astutil import bound_args
+        b_ = bound_args(repo, fi, ctor[0]) or {}
+        kws = {k_: unparse(v_) for k_, v_ in b_.items()}
+        pos = [kws.get("dset")] if "dset" in kws else [unparse(a) for a in ctor[0].args]
         want = {"lons": "lons", "lats": "lats", "dset_lons": "dset_lons", "dset_lats": "dset_lats"}
         if pos[:1] == [fi.params[0]] and all(kws.get(k) == v for k, v in want.items()):
             rep.ok("R-C14-3", f"{fi.file}:{ctor[0].lineno} {name}", unparse(ctor[0])[:100], "same five arguments in every selector")
@@ -209,7 +211,22 @@ def epilogues(repo, rep):
         rep.ok("R-C14-3", f"{fi.file} SpecDataset.sel", "unknown method -> ValueError", "rejected, not mis-handled")
     else:
         rep.fail("R-C14-3", fi.file, fi.node.lineno, fi.qualname, "unknown method", "an unsupported method must raise ValueError")
-    if "kwargs.update({'exact': True})" in t and "if method is None" in t:
+    exact_ok = False
+    for i_ in ast.walk(fi.node):
+        if isinstance(i_, ast.If) and unparse(i_.test).replace(" ", "") in ("methodisNone", "notmethod"):
+            for b_ in ast.walk(i_):
+                # kwargs.update({"exact": True}) / kwargs.update(exact=True) / kwargs["exact"] = True
+                if isinstance(b_, ast.Call) and isinstance(b_.func, ast.Attribute) and b_.func.attr == "update":
+                    for a_ in b_.args:
+                        d_ = repo.const(fi.module, a_)
+                        if isinstance(d_, dict) and d_.get("exact") is True:
+                            exact_ok = True
+                    if any(k_.arg == "exact" and repo.const(fi.module, k_.value) is True for k_ in b_.keywords):
+                        exact_ok = True
+                if isinstance(b_, ast.Assign) and isinstance(b_.targets[0], ast.Subscript) and repo.const(fi.module, b_.targets[0].slice) == "exact" \
+                        and repo.const(fi.module, b_.value) is True:
+                    exact_ok = True
+    if exact_ok:
         rep.ok("R-C14-3", f"{fi.file} SpecDataset.sel", "method=None -> exact=True", "only exact matches")
     else:
         rep.fail("R-C14-3", fi.file, fi.node.lineno, fi.qualname, "method=None", "method=None must require exact matches")
